@@ -144,21 +144,51 @@ func (e *Engine) setupExt() {
 		}
 		return nil
 	}
+	// byte searches are formulas over the cells, not forks: the result is an ite
+	// chain over the positions (first / last match, or -1)
+	matchAt := func(sv *bytesV, i int, c *Term) *Term {
+		return And(Ult(BV(64, uint64(i)), sv.n), Eq(sv.arr.b[sv.off+i], c))
+	}
+	capOf := func(sv *bytesV) int {
+		if l, ok := sv.concreteLen(); ok {
+			return l
+		}
+		return sv.cap
+	}
 	indexByte := func(e *Engine, fr *frame, a []value) value {
 		sv := a[0].(*bytesV)
 		c := a[1].(*Term)
-		for i := 0; i < sv.cap; i++ {
-			if !e.decide(Ult(BV(64, uint64(i)), sv.n)) {
-				return BV(64, ^uint64(0))
-			}
-			if e.decide(Eq(sv.arr.b[sv.off+i], c)) {
-				return BV(64, uint64(i))
-			}
+		res := BV(64, ^uint64(0))
+		for i := capOf(sv) - 1; i >= 0; i-- {
+			res = e.ite(matchAt(sv, i, c), BV(64, uint64(i)), res)
 		}
-		return BV(64, ^uint64(0))
+		return res
+	}
+	lastIndexByte := func(e *Engine, fr *frame, a []value) value {
+		sv := a[0].(*bytesV)
+		c := a[1].(*Term)
+		res := BV(64, ^uint64(0))
+		for i := 0; i < capOf(sv); i++ {
+			res = e.ite(matchAt(sv, i, c), BV(64, uint64(i)), res)
+		}
+		return res
+	}
+	countByte := func(e *Engine, fr *frame, a []value) value {
+		sv := a[0].(*bytesV)
+		c := a[1].(*Term)
+		res := BV(64, 0)
+		for i := 0; i < capOf(sv); i++ {
+			res = Add(res, e.ite(matchAt(sv, i, c), BV(64, 1), BV(64, 0)))
+		}
+		return res
 	}
 	x["internal/bytealg.IndexByteString"] = indexByte
 	x["internal/bytealg.IndexByte"] = indexByte
+	x["internal/bytealg.LastIndexByteString"] = lastIndexByte
+	x["internal/bytealg.LastIndexByte"] = lastIndexByte
+	x["internal/bytealg.CountString"] = countByte
+	x["internal/bytealg.Count"] = countByte
+	x["internal/bytealg.Equal"] = func(e *Engine, fr *frame, a []value) value { return e.strEq(a[0].(*bytesV), a[1].(*bytesV)) }
 	indexStr := func(e *Engine, fr *frame, a []value) value {
 		sv := a[0].(*bytesV)
 		sub := a[1].(*bytesV)
